@@ -366,8 +366,8 @@ CHECKS["C12"] = {
     "crates": ["netconf"],
     "explanation": "(1) Capabilities::highest_common_version of the client's default hello against every server subset of {:base:1.0, :base:1.1, "
                    ":candidate}, and the framing of the first request against the negotiated version (RFC 6242 4.1/4.2).  (2) ServerHello::read_xml "
-                   "over every <hello> whose children are a sequence of length <= 3 over {session-id, capabilities} (12 layouts walked by concrete "
-                   "loops, four harnesses), the session-id text symbolic over {1, 4294967295, 0, 4294967296, -1, x}: accepted iff exactly one "
+                   "over every <hello> whose children are a sequence of length <= 3 over {session-id, capabilities} (12 layouts x 6 session-id texts {1, 4294967295, 0, 4294967296, -1, x}, walked by "
+                   "concrete loops in four harnesses; the solver decides every branch of the reader that does not fold): accepted iff exactly one "
                    "<capabilities> and exactly one session-id with a valid non-zero 32-bit value, and the reported id is the hello's.  (3) "
                    "Capabilities::read_xml over <capabilities> holding any subset of {:base:1.0, :base:1.1}: the set read is the set sent.  "
                    "Capability::from_str itself (URI validation by iri-string) is summarised, see assumptions.",
@@ -382,8 +382,8 @@ CHECKS["C12"] = {
     ] + [
         harness("c12_server_hello_sequences_%s" % g, functions=["ServerHello::read_xml", "SessionId::from_str"],
                 bounds="children of <hello>: layouts %s of the 12 sequences of length <= 3 over {session-id, capabilities} (concrete loop); "
-                       "session-id text symbolic over {1, 4294967295, 0, 4294967296, -1, x}; capabilities = {:base:1.0} (summarised reader)" % r,
-                loops=HELLO_LOOPS, stubbing=True, timeout={"quick": 1500, "thorough": 3600}, mem_gb=30, target="c12_hs_%s" % g)
+                       "session-id text from {1, 4294967295, 0, 4294967296, -1, x} (walked concretely as well: 18 hellos per harness); capabilities = {:base:1.0} (summarised reader)" % r,
+                loops=HELLO_LOOPS, stubbing=True, timeout={"quick": 1800, "thorough": 3600}, mem_gb=36, target="c12_hs_%s" % g)
         for g, r in (("a", "1-3 (none / sid / caps)"), ("b", "4-6 (sid,sid / sid,caps / caps,sid)"), ("c", "7-9 (three children, one caps)"), ("d", "10-12 (sid x3 / caps x2)"))
     ] + [
         harness("c12_server_hello_session_id_after_capabilities", functions=["ServerHello::read_xml", "SessionId::from_str"],
